@@ -55,6 +55,10 @@ class ErrorsModel:
         w.ev = ev
         ev.world_modules["bisect"] = Module("bisect", {"insort": w._insort, "insort_right": w._insort,
                                                        "insort_left": lambda s, x, **k: w._insort(s, x, left=True)}, lenient=False)
+        import operator as _op
+        ev.world_modules["operator"] = Module("operator", {
+            "attrgetter": lambda *names: (lambda o: ev.getattr(o, names[0]) if len(names) == 1 else tuple(ev.getattr(o, n) for n in names)),
+            "itemgetter": _op.itemgetter, "methodcaller": lambda n, *a, **k: (lambda o: ev.call_method(o, n, list(a), k))}, lenient=False)
         return ev
 
     def new_errors(self, ev):
